@@ -114,3 +114,10 @@ claim("C01", ENGINE_A + "; go/parser + go/types on whole emitted files against r
       "message, go/format fallback). Not decided: gofmt stability, representability of kept bounds in a sized type, shapes outside the families (cross-file refs, goJSONSchema overrides).",
       "as C06 plus go/types with export data of the real libraries; litter.Sdump modelled as 'Go literal of the dynamic type'",
       "DESIGN.md §2 C01")
+
+claim("C16", ENGINE_A + "; relational comparison (A-REL) of the skeleton files of two option sets differing in one option",
+      "Decides, for every member of the broad union of families generated twice under option sets that differ in exactly one option (~1000 pairs quick), that --only-models yields identical type and "
+      "constant declarations and nothing else (no func/method/var, no validation-support import), that a different --tags list changes tag text only (types, methods, constants, imports identical), "
+      "that dropping --extra-imports removes exactly the YAML methods and import (types, variables, JSON methods identical), and that --struct-name-from-title / --capitalization (on families "
+      "with concrete names, through the real identifier synthesiser) change identifiers only. Flag wiring in main.go and --schema-root-type are not decided.",
+      "as C06", "DESIGN.md §2 C16")
